@@ -656,6 +656,7 @@ func (d *Data) cleaveIndex(v dvid.VersionID, op labels.CleaveOp, info dvid.ModIn
 		err = fmt.Errorf("cannot cleave non-existent label %d", op.Target)
 		return
 	}
+	dvid.VerifPoint("yield:labelmap.cleaveIndex:after-read")
 
 	if err := d.addMutcache(v, op.MutID, idx); err != nil {
 		dvid.Criticalf("unable to add cleaved mutid %d index %d: %v\n", op.MutID, op.Target, err)
@@ -705,6 +706,7 @@ func ChangeLabelIndex(d dvid.Data, v dvid.VersionID, label uint64, delta labels.
 		idx = new(labels.Index)
 		idx.Label = label
 	}
+	dvid.VerifPoint("yield:labelmap.ChangeLabelIndex:after-read")
 
 	if err := idx.ModifyBlocks(label, delta); err != nil {
 		return err
